@@ -2,7 +2,7 @@
 From Coq Require Import ZArith List Bool Lia.
 From RecordUpdate Require Import RecordUpdate.
 From SimVerif Require Import Model.Base Model.Env Model.FamEnv Model.RM Model.Maint Model.FloorTypes Model.Floor Model.FamFloor.
-From SimVerif Require Import Proofs.FloorSteps Proofs.FloorInv Proofs.FloorSys Proofs.MaintInv.
+From SimVerif Require Import Proofs.FloorReach Proofs.FloorSteps Proofs.FloorInv Proofs.FloorSys Proofs.MaintInv.
 Import ListNotations.
 Open Scope Z_scope.
 
@@ -56,6 +56,11 @@ Proof.
   - induction (f_maints w) as [|e l IH]; cbn; [reflexivity|]. rewrite IH. reflexivity.
 Qed.
 
+(** value bookkeeping in every reachable state of every well-formed scenario: a device's value is the sum of its
+    recorded value changes; a source's value is minus the cost of the parts it supplied; a sink's value is what it received *)
+Theorem C16_always : forall sc s d x, reach_fl sc s -> aget d (f_devs (fst s)) = Some x -> ValInv x /\ EndValInv x.
+Proof. intros sc s d x H Hx. destruct (reach_dev sc s d x H Hx) as [_ [_ [V [_ [_ E]]]]]. split; assumption. Qed.
+
 Print Assumptions C16_history_meaning.
 Print Assumptions C16_history_event.
 Print Assumptions C16_history_step.
@@ -67,6 +72,7 @@ Print Assumptions C16_batch_value.
 Print Assumptions C16_maintainer_cost.
 Print Assumptions C16_net_value_is_sum.
 
+Print Assumptions C16_always.
 Example C16_nonvacuous :
   let s := t_accept_sink 8 (ISingle (mkPart 5 24 8 [] [])) (t_accept_sink 4 (ISingle (mkPart 4 16 8 [] [])) (blank_dev KSink)) in
   ValInv s /\ EndValInv s /\ d_value s = 40 /\ length (d_vhist s) = 2%nat.
